@@ -99,19 +99,41 @@ Theorem c07_trace_safe_prefix :
 Proof. exact trace_safe_prefix. Qed.
 Print Assumptions c07_trace_safe_prefix.
 
-(* ---- commits vs saves: every interleaving of the labels ----------------------------------------------
-   every block (job, offsets) of the offsets file, and of the buffer of a save in progress, is the offsets
-   map that job had at an earlier instant (the instant save held the job's lock), and none of its offsets
-   exceeds what is committed now *)
+(* ---- commits vs saves: every interleaving of the labels, several saves of one offsetDB in flight ---------
+   every block (job, offsets) of the offsets file, of the shared buffer, of every temp file, is the offsets map
+   that job had at an earlier instant (the instant a save held the job's lock), and none of its offsets exceeds
+   what is committed now — whether or not save keeps o.mu until the rename *)
 Theorem c07_snapshot_not_ahead :
-  forall (ls : list label) (c : cst),
-    run_lts cst0 ls = Some c ->
+  forall (hold : bool) (ls : list label) (c : cst),
+    run_lts hold cst0 ls = Some c ->
     forall j m,
-      (In (j, m) (file c) \/ exists rest buf, pending c = Some (rest, buf) /\ In (j, m) buf) ->
+      (In (j, m) (file c) \/ In (j, m) (buf c) \/
+       (exists i tmp, In (i, Written tmp) (saves c) /\ In (j, m) tmp) \/
+       (exists i b, In (i, b) (built c) /\ In (j, m) b)) ->
       (exists t, In t (live c :: hist c) /\ tget t j = Some m) /\
       (exists m', tget (live c) j = Some m' /\ forall s, sget m s <= sget m' s).
 Proof. exact snapshot_not_ahead. Qed.
 Print Assumptions c07_snapshot_not_ahead.
+
+(* the offsets file is always ONE complete snapshot — untouched, or exactly the buffer one save serialised from
+   the first to the last job of its job list — for every interleaving of overlapping saves and commits, GIVEN
+   what the code's mutual exclusion provides: [save_holds_mu_until_rename] is read off the Go AST
+   (Gen/SaveProtocol.v); if save releases o.mu before the write/rename this statement no longer type-checks *)
+Theorem c07_file_is_one_complete_snapshot :
+  forall (ls : list label) (c : cst),
+    run_lts save_holds_mu_until_rename cst0 ls = Some c ->
+    if renamed c then exists i, In (i, file c) (built c) else file c = [].
+Proof. exact file_complete_when_mu_held. Qed.
+Print Assumptions c07_file_is_one_complete_snapshot.
+
+(* with the lock released once the buffer is built, two overlapping saves leave a truncated file *)
+Theorem c07_overlapping_saves_refuted :
+  exists c, run_lts false cst0 overlap_trace = Some c /\
+            file c = [(1%N, [([97%N], 5)])] /\
+            built c = [(1%nat, [(1%N, [([97%N], 5)]); (2%N, [([97%N], 6)])])] /\
+            ~ file_complete c.
+Proof. exact file_complete_refuted_when_mu_released. Qed.
+Print Assumptions c07_overlapping_saves_refuted.
 
 (* ---- non-vacuity ------------------------------------------------------------------------------------ *)
 (* a table with the stream names "", ":", "a: 5", "- file: x", "  streams:", a non-ASCII one, offsets 0 and
@@ -146,9 +168,13 @@ Example c07_protocol_nonvacuous :
 Proof. vm_compute. repeat split; reflexivity. Qed.
 
 (* a commit lands between "save begins" and "save locks the job", another one after it: the file holds the
-   offset of the lock instant (9), below the committed 12 *)
+   offset of the lock instant (9), below the committed 12; a second save waits for the first one's rename *)
 Example c07_snapshot_nonvacuous :
-  exists c, run_lts cst0 [LAddJob 1; LCommit 1 [97%N] 5; LSaveBegin; LCommit 1 [97%N] 9; LSaveJob;
-                          LCommit 1 [97%N] 12; LSaveEnd] = Some c /\
-            file c = [(1%N, [([97%N], 9)])] /\ tget (live c) 1%N = Some [([97%N], 12)].
-Proof. eexists. vm_compute. repeat split; reflexivity. Qed.
+  save_holds_mu_until_rename = true /\
+  (exists c, run_lts true cst0 [LAddJob 1; LCommit 1 [97%N] 5; LSaveBegin 1; LCommit 1 [97%N] 9; LSaveJob 1;
+                                LSaveBuilt 1; LCommit 1 [97%N] 12; LSaveWrite 1; LSaveRename 1;
+                                LSaveBegin 2; LSaveJob 2; LSaveBuilt 2] = Some c /\
+             file c = [(1%N, [([97%N], 9)])] /\ tget (live c) 1%N = Some [([97%N], 12)] /\
+             buf c = [(1%N, [([97%N], 12)])]) /\
+  run_lts true cst0 [LAddJob 1; LSaveBegin 1; LSaveBegin 2] = None.
+Proof. split; [reflexivity|]. split; [eexists; vm_compute; repeat split; reflexivity | reflexivity]. Qed.
